@@ -346,3 +346,20 @@ Proof.
   unfold match_at in Em. apply m_sound in Em. destruct Em as (s' & p' & g' & M & _).
   rewrite (am_sound tbl k Hk f r A s q s' p' (fun _ => true) HA M (fun _ _ => eq_refl)) in H. discriminate.
 Qed.
+
+(* a two-group match in context, from its span and group positions *)
+Lemma two_group_ctx r pre h v tl post mask g :
+  match_at r ((h ++ v ++ tl) ++ post) (blen pre) = Some (blen (pre ++ h ++ v ++ tl), g) -> h ++ v ++ tl <> [] ->
+  gget g 1 = Some (blen pre, blen (pre ++ h)) -> gget g 2 = Some (blen (pre ++ h ++ v), blen (pre ++ h ++ v ++ tl)) ->
+  (forall a' b' q, pre = a' ++ b' -> b' <> [] -> match_at r (b' ++ (h ++ v ++ tl) ++ post) q = None) ->
+  (forall a' b' q, post = a' ++ b' -> match_at r b' q = None) ->
+  re_sub r (t2 mask) (pre ++ (h ++ v ++ tl) ++ post) = pre ++ h ++ mask ++ tl ++ post.
+Proof.
+  intros Hm Hne G1 G2 Hpre Hpost.
+  rewrite (sub_ctx r (t2 mask) pre (h ++ v ++ tl) post g Hpre Hne Hm Hpost).
+  rewrite (expand_t2 _ _ _ _ _ _ _ G1 G2). f_equal. rewrite <- !app_assoc.
+  rewrite (slice_mid pre h (v ++ tl ++ post)). f_equal. f_equal.
+  replace (pre ++ h ++ v ++ tl ++ post) with ((pre ++ h ++ v) ++ tl ++ post) by (rewrite <- !app_assoc; reflexivity).
+  replace (blen (pre ++ h ++ v ++ tl)) with (blen ((pre ++ h ++ v) ++ tl)) by (rewrite <- !app_assoc; reflexivity).
+  rewrite slice_mid. reflexivity.
+Qed.
